@@ -29,7 +29,9 @@
 #include "ola/Callback.h"
 #include "ola/Clock.h"
 #include "ola/Logging.h"
+#define private public
 #include "ola/io/SelectServer.h"
+#undef private
 #include "vh.h"
 
 #include "harness_poller.h"
@@ -364,6 +366,35 @@ static void on_fire(int ser) {
 static bool fired_rep(int ser) { on_fire(ser); return true; }
 static void fired_one(int ser) { on_fire(ser); }
 
+// timers registered from inside a loop callback (L) or from a descriptor's on_data handler (D)
+static ola::io::SelectServer *g_server;
+struct Deferred;
+static vector<Deferred*> g_deferred_done;
+static void register_timer(bool rep, bool ms_overload, unsigned long long v, int id) {
+  uint64_t us = ms_overload ? static_cast<uint64_t>(static_cast<unsigned int>(v)) * 1000ULL : v;
+  g_interval[id] = us; g_due[id] = g_clock->Now() + us;
+  if (ms_overload) {
+    if (rep) g_server->RegisterRepeatingTimeout(static_cast<unsigned int>(v), ola::NewCallback(&fired_rep, id));
+    else g_server->RegisterSingleTimeout(static_cast<unsigned int>(v), ola::NewSingleCallback(&fired_one, id));
+  } else {
+    TimeInterval iv(static_cast<int64_t>(v));
+    if (rep) g_server->RegisterRepeatingTimeout(iv, ola::NewCallback(&fired_rep, id));
+    else g_server->RegisterSingleTimeout(iv, ola::NewSingleCallback(&fired_one, id));
+  }
+}
+struct Deferred { bool rep; unsigned long long us; int id; bool done; ola::io::LoopbackDescriptor *desc; };
+static void loop_cb(Deferred *d) {
+  if (d->done) return;
+  d->done = true;
+  register_timer(d->rep, false, d->us, d->id);
+}
+static void desc_cb(Deferred *d) {
+  uint8_t buf[8]; unsigned int got = 0;
+  d->desc->Receive(buf, sizeof(buf), got);
+  g_server->RemoveReadDescriptor(d->desc);
+  if (!d->done) { d->done = true; register_timer(d->rep, false, d->us, d->id); }
+}
+
 // called by the epoll_wait / select interposers when nothing is ready: the poller sleeps on the virtual clock
 static void vsleep(long long us) {
   if (us < 0) { if (g_log) g_log->push_back("!sleep-forever"); return; }
@@ -380,6 +411,8 @@ static string run_backend(const string &payload, bool force_select, bool *early)
     opt.force_select = force_select;
     opt.clock = &clock;
     ola::io::SelectServer server(opt);
+    g_server = &server;
+    vector<Deferred*> deferred;
     int ser = 0;
     vector<string> ops = vh::split(payload.substr(2), ';');
     for (size_t i = 0; i < ops.size(); i++) {
@@ -394,18 +427,23 @@ static string run_backend(const string &payload, bool force_select, bool *early)
           bool rep = g[0] == "1";
           unsigned long long v = vh::num(g[1]);
           int count = g.size() > 2 ? static_cast<int>(vh::num(g[2])) : 1;   // register <count> such timers
-          for (int k = 0; k < count; k++) {
-            int id = ser++;
-            uint64_t us = o[0] == 'm' ? static_cast<uint64_t>(static_cast<unsigned int>(v)) * 1000ULL : v;
-            g_interval[id] = us; g_due[id] = clock.Now() + us;
-            if (o[0] == 'm') {
-              if (rep) server.RegisterRepeatingTimeout(static_cast<unsigned int>(v), ola::NewCallback(&fired_rep, id));
-              else server.RegisterSingleTimeout(static_cast<unsigned int>(v), ola::NewSingleCallback(&fired_one, id));
-            } else {
-              TimeInterval iv(static_cast<int64_t>(v));
-              if (rep) server.RegisterRepeatingTimeout(iv, ola::NewCallback(&fired_rep, id));
-              else server.RegisterSingleTimeout(iv, ola::NewSingleCallback(&fired_one, id));
-            }
+          for (int k = 0; k < count; k++) register_timer(rep, o[0] == 'm', v, ser++);
+          break;
+        }
+        case 'L': case 'D': {     // the timer is registered during the next iteration, by a loop / descriptor callback
+          vector<string> g = vh::split(rest, ',');
+          Deferred *d = new Deferred();
+          d->rep = g[0] == "1"; d->us = vh::num(g[1]); d->id = ser++; d->done = false; d->desc = NULL;
+          deferred.push_back(d);
+          if (o[0] == 'L') {
+            server.RunInLoop(ola::NewCallback(&loop_cb, d));
+          } else {
+            d->desc = new ola::io::LoopbackDescriptor();
+            d->desc->Init();
+            d->desc->SetOnData(ola::NewCallback(&desc_cb, d));
+            uint8_t one = 1;
+            d->desc->Send(&one, 1);
+            server.AddReadDescriptor(d->desc);
           }
           break;
         }
@@ -422,7 +460,14 @@ static string run_backend(const string &payload, bool force_select, bool *early)
       for (size_t k = 0; k < log.size(); k++) out += (k ? "," : "") + log[k];
     }
     g_log = NULL;
+    for (size_t k = 0; k < deferred.size(); k++) {
+      if (deferred[k]->desc) { server.RemoveReadDescriptor(deferred[k]->desc); }
+    }
+    g_deferred_done = deferred;
   }
+  for (size_t k = 0; k < g_deferred_done.size(); k++) { delete g_deferred_done[k]->desc; delete g_deferred_done[k]; }
+  g_deferred_done.clear();
+  g_server = NULL;
   if (g_early) *early = true;
   return out;
 }
@@ -434,7 +479,16 @@ static string handle(const string &payload) {
 }
 }  // namespace ss
 
+static string consts_s() {
+  std::ostringstream o;
+  o << "consts=" << ola::io::EPoller::MAX_EVENTS << "." << ola::io::EPoller::READ_FLAGS << "."
+    << ola::io::EPoller::MAX_FREE_DESCRIPTORS << "." << ola::io::SelectServer::POLL_INTERVAL_SECOND << "."
+    << ola::io::SelectServer::POLL_INTERVAL_USECOND;
+  return o.str();
+}
+
 static string dispatch(const string &payload) {
+  if (payload == "K") return consts_s();
   if (payload.size() >= 2 && payload[0] == 'T') return ta::handle(payload);
   if (payload.size() >= 2 && payload[0] == 'S') return ss::handle(payload);
 #ifdef HAVE_POLLER
